@@ -77,8 +77,9 @@ def check(tier, seed):
     pid = "C18"
     rng = random.Random(seed)
     cov = {"checker_cmd": "make -C coq Properties_C18.vo && coqc -Q coq Econf coq/Properties_C18.v", "trusted_base": checklib.TRUSTED_BASE}
-    ps = checklib.proof_status(pid)
+    ps = checklib.proof_status(pid, tier)
     cov.update(obligations=ps["obligations"], discharged=ps["discharged"], theorems=ps["theorems"], axioms=ps["axioms"])
+    if "coqchk" in ps: cov["coqchk"] = {"exit": ps["coqchk"]["exit"], "axioms_of_all_loaded_libraries": ps["coqchk"]["axioms"], "unsafe": ps["coqchk"]["unsafe"]}
     exe, err = vlib.impl_driver("tsan")
     if exe is None:
         p = vlib.write_replay(pid, "build-failure.txt", "# the ThreadSanitizer build of the driver failed\n" + err[-3000:])
